@@ -2,7 +2,7 @@
 # Developer tool: confirm a seeded change delivered under /tmp/wtout/<ID>/<variant>:
 #   compiles (with/without tag), passes the unedited suite, demo passes without and fails with the change.
 # Uses the scratch worktree /tmp/wt/<ID>. Prints a one-line verdict.
-ID=$1; V=$2; D=/tmp/wtout/$ID/$V; W=/tmp/wt/$ID
+ID=$1; V=$2; WTOUT=${WTOUT:-/tmp/wtout}; WT=${WT:-/tmp/wt}; D=$WTOUT/$ID/$V; W=$WT/$ID
 export GOFLAGS=-mod=mod GOPROXY=off GOSUMDB=off GOTOOLCHAIN=local
 cd $W || exit 2
 git checkout -q -- . ; git clean -fdq
@@ -11,11 +11,11 @@ rundemo() {
     pkg=$(grep -m1 '^package ' $D/demo_test.go | awk '{print $2}' | sed 's/_test$//')
     case $pkg in xmss) dir=xmss;; dilithium) dir=dilithium;; misc) dir=misc;; dilithiumjs) dir=qrllib-js/dilithiumjs;; xmssjs) dir=qrllib-js/xmssjs;; *) dir=$pkg;; esac
     cp $D/demo_test.go $W/$dir/zz_seed_demo_test.go
-    (cd $W && timeout 600 go test -vet=off -count=1 $3 ./$dir/ >/tmp/wtout/$ID/$V/demo_$1.log 2>&1); rc=$?
+    (cd $W && timeout 600 go test -vet=off -count=1 $3 ./$dir/ >$D/demo_$1.log 2>&1); rc=$?
     rm -f $W/$dir/zz_seed_demo_test.go
     return $rc
   elif [ -d $D/demo ]; then
-    (cd $D/demo && timeout 600 go run . >/tmp/wtout/$ID/$V/demo_$1.log 2>&1); return $?
+    (cd $D/demo && timeout 600 go run . >$D/demo_$1.log 2>&1); return $?
   fi
   return 99
 }
